@@ -1046,3 +1046,13 @@ theorem post_envSet {st : St} (hI : Inv st) {e : Nat} (he : e < st.frames.size) 
   post_createOrSet hI he name hval false
 
 end Grol.K
+
+namespace Grol.K
+open Grol.E
+
+/-- `envGet`, keeping only the scoping of the result -/
+theorem post_envGet_ok {st : St} (hI : Inv st) {e : Nat} (he : e < st.frames.size) (name : String) :
+    Post (envGet e name) st OkOpt :=
+  (post_envGet hI he name).mono (fun _ _ _ _ h => h.1)
+
+end Grol.K
